@@ -124,6 +124,26 @@ fn c02_api() -> Option<String> {
     None
 }
 
+/// API-level witness for C06 (needs set_stack_limit): a read that cannot deliver its value does not consume input
+fn c06_api() -> Option<String> {
+    for word in ["u8", "i16be", "f32", "cstr", "nulbytestr"] {
+        let mut xs = xs::boot_safe();
+        if xs.eval("|41 42 43 00 45 46| open-bitstr 1 2").is_err() {
+            return Some("setup failed".into());
+        }
+        xs.set_stack_limit(Some(2)).unwrap();
+        let r = guard(|| xs.eval(word));
+        xs.set_stack_limit(None).unwrap();
+        if !matches!(r, Ok(Err(_))) {
+            return Some(format!("`{}` with a full stack did not fail", word));
+        }
+        if xs.eval("offset").is_err() || xs::render_stack(&xs) != "1 | 2 | 0" {
+            return Some(format!("`{}` refused by the stack limit moved the cursor: stack [{}]", word, xs::render_stack(&xs)));
+        }
+    }
+    None
+}
+
 /// runs the witnesses of one property; returns (name, detail) of the failing ones
 pub fn run_for(prop: &str) -> Vec<(String, String)> {
     let mut bad = Vec::new();
@@ -140,6 +160,11 @@ pub fn run_for(prop: &str) -> Vec<(String, String)> {
             bad.push((name.to_string(), d));
         }
     }
+    if prop == "C06" {
+        if let Some(d) = c06_api() {
+            bad.push(("read-refused-by-full-stack-keeps-cursor".to_string(), d));
+        }
+    }
     if prop == "C02" {
         if let Some(d) = c02_api() {
             bad.push(("reverse-local-and-foreach".to_string(), d));
@@ -149,5 +174,5 @@ pub fn run_for(prop: &str) -> Vec<(String, String)> {
 }
 
 pub fn count_for(prop: &str) -> usize {
-    WITNESSES.iter().filter(|w| w.prop == prop && !w.name.starts_with("placeholder")).count() + OUT_WITNESSES.iter().filter(|w| w.0 == prop).count() + if prop == "C02" { 1 } else { 0 }
+    WITNESSES.iter().filter(|w| w.prop == prop && !w.name.starts_with("placeholder")).count() + OUT_WITNESSES.iter().filter(|w| w.0 == prop).count() + if prop == "C02" || prop == "C06" { 1 } else { 0 }
 }
